@@ -315,6 +315,7 @@ func runC10(c *Ctx, r *Report) {
 	r.NotDecided = "every numerical result: counts, sums, means, variances, percentiles and their interpolation, sliding windows and EWMA, tie-breaking of top/most-frequent, fractions, histogram bin edges."
 	r.Rule("R10.7", "aggregating verbs order groups with stable sorts only: every sort call in the aggregating verbs' files is stable (most-frequent / least-frequent: groups with equal counts stay in first-appearance order), a sort of plain strings or numbers, or a listed exception")
 	checkStableSorts(c, r, "R10.7", []string{"most_or_least_frequent.go", "count_distinct.go", "count_similar.go", "count.go", "uniq.go", "stats1.go", "stats2.go", "merge_fields.go", "step.go", "top.go", "fraction.go", "histogram.go", "fill_down.go", "utils/percentile_keeper.go", "utils/stats1_accumulators.go"}, 3)
+	c10UnlinkSymmetric(c, r)
 	r.Rule("R10.1", "a record lacking a group-by or value field is left out of that accumulation only: for every call of GetSelectedValuesJoined / GetSelectedValuesAndJoined / ReferenceSelectedValues / GetSelectedValues / HasSelectedKeys in the verbs and the DSL emit code, the boolean result is branched on and every use of the selected key/values is dominated by its true edge")
 	checkSelectorResults(c, r, "R10.1", nil, 30)
 
